@@ -164,6 +164,7 @@ func runC03(b *Batch) {
 					cfg.SyncRead = rep%3 == 0
 				}
 				obs, x := c03Run(cfg, cell, rng)
+				defer x.release()
 				b.R.Eval()
 				b.R.Count("runs", 1)
 				cl := obs.class()
